@@ -27,16 +27,17 @@ open VlsModel VlsModel.Monitor VlsModel.Prune VlsModel.Gen.Chain VlsModel.Props
 
 /-! ## The invariant -/
 
-theorem C15_inv_init (height : Nat) (regtest : Bool) : Inv (Node.init height regtest) :=
-  inv_init height regtest
+theorem C15_inv_init (height : Nat) (regtest : Bool) (mc : Nat := maxChannelsDefault) :
+    Inv (Node.init height regtest mc) :=
+  inv_init height regtest mc
 
 theorem C15_inv_step (n : Node) (op : Op) (i : Inv n) : Inv (step n op).1 := inv_step i op
 
 theorem C15_inv_run (n : Node) (ops : List Op) (i : Inv n) : Inv (run n ops) := inv_run i ops
 
 /-- every reachable node satisfies the invariant -/
-theorem C15_inv_reachable (height : Nat) (regtest : Bool) (ops : List Op) :
-    Inv (run (Node.init height regtest) ops) := inv_run (inv_init height regtest) ops
+theorem C15_inv_reachable (height : Nat) (regtest : Bool) (ops : List Op) (mc : Nat := maxChannelsDefault) :
+    Inv (run (Node.init height regtest mc) ops) := inv_run (inv_init height regtest mc) ops
 
 /-! ## 1. No reuse of forgotten ids -/
 
@@ -73,9 +74,61 @@ theorem C15_no_reuse (n : Node) (d : Nat) (i : Inv n) (hd : lookup d n.channels 
 
 /-- the same for a node reached from the initial state (no invariant hypothesis needed) -/
 theorem C15_no_reuse_reachable (height : Nat) (regtest : Bool) (pre ops : List Op) (d d' : Nat)
-    (hd : lookup d (run (Node.init height regtest) pre).channels ≠ none) (hle : d' ≤ d) :
-    (newChannel (run (forget (run (Node.init height regtest) pre) d).1 ops) d').2 = .err :=
-  (C15_no_reuse _ d (C15_inv_reachable height regtest pre) hd ops d' hle).1
+    (mc : Nat := maxChannelsDefault)
+    (hd : lookup d (run (Node.init height regtest mc) pre).channels ≠ none) (hle : d' ≤ d) :
+    (newChannel (run (forget (run (Node.init height regtest mc) pre) d).1 ops) d').2 = .err :=
+  (C15_no_reuse _ d (C15_inv_reachable height regtest pre mc) hd ops d' hle).1
+
+/-! ### 1b. The capacity guard of `find_or_create_channel` (`channels.len() >= policy.max_channels()`)
+
+It sits between the high-water-mark guard and the slot lookup.  It can only refuse: the id rule above is untouched
+(`C15_no_reuse` holds for every configured limit, the limit being a field of the node), a refusal changes nothing,
+and the channel map of a reachable node never exceeds the limit. -/
+
+/-- at capacity `new_channel` is refused and changes nothing, **even for an id that already exists** (the guard
+    precedes the lookup) -/
+theorem C15_new_at_capacity (n : Node) (d : Nat) (hc : n.maxChannels ≤ n.channels.length) :
+    newChannel n d = (n, .err) := by
+  unfold newChannel
+  by_cases hh : n.hwm ≥ d
+  · rw [if_pos hh]
+  · rw [if_neg hh, if_pos hc]
+
+/-- a channel entry is created only for an id above the high-water mark and strictly below capacity -/
+theorem C15_new_creates_only_below_capacity (n : Node) (d : Nat)
+    (h0 : lookup d n.channels = none) (h1 : lookup d (newChannel n d).1.channels ≠ none) :
+    n.hwm < d ∧ n.channels.length < n.maxChannels := by
+  unfold newChannel at h1
+  split at h1
+  · exact absurd h0 h1
+  · split at h1
+    · exact absurd h0 h1
+    · rename_i ha hb
+      exact ⟨by omega, by omega⟩
+
+/-- an accepted `new_channel` answers with a slot for `d`: the existing one or a fresh stub -/
+theorem C15_new_ok_exists (n : Node) (d : Nat) (h : (newChannel n d).2 = .ok) :
+    lookup d (newChannel n d).1.channels ≠ none := by
+  unfold newChannel at h ⊢
+  split
+  · rename_i hh; rw [if_pos hh] at h; cases h
+  · split
+    · rename_i hh hc; rw [if_neg hh, if_pos hc] at h; cases h
+    · split
+      · rename_i s hs; rw [hs]; simp
+      · simp only; rw [lookup_insert]; simp
+
+/-- the channel map of a reachable node never exceeds the configured capacity -/
+theorem C15_capacity_reachable (height : Nat) (regtest : Bool) (mc : Nat) (ops : List Op) :
+    (run (Node.init height regtest mc) ops).channels.length ≤ mc :=
+  capacity_run (n := Node.init height regtest mc) (inv_init height regtest mc) (Nat.zero_le _) ops
+
+/-- capacity 2: ids 1 and 2 are created, 3 is refused, asking again for the existing id 1 is refused as well (guard
+    before lookup); after `forget 2` (a stub: removed) id 3 is accepted, id 2 never again -/
+example :
+    let n := run (Node.init 0 false 2) [.newChannel 1, .newChannel 2]
+    (newChannel n 3).2 = .err ∧ (newChannel n 1).2 = .err ∧
+    (newChannel (forget n 2).1 3).2 = .ok ∧ (newChannel (forget n 2).1 2).2 = .err := by decide
 
 /-! ## 2. A ready channel disappears only by a justified prune -/
 
@@ -200,7 +253,7 @@ def exListener (height : Nat) : Listener :=
 /-- channel 5 is ready with monitor key 1; forgotten; mutual close at height 1 -/
 def exNode (height : Nat) : Node :=
   { channels := [(5, .ready 1)], hwm := 5, height, listeners := [(1, exListener height)],
-    regtest := false,
+    regtest := false, maxChannels := maxChannelsDefault,
     store := { channels := [(5, .ready 1)], hwm := 5, height, listeners := [(1, exListener height)] } }
 
 example : Inv (exNode 100) :=
